@@ -37,7 +37,7 @@ def build_obs(ctx, rnd, n, vers, strata):
                 hist.append(g.v2(lead=stratum if j == 0 else 'nz'))
             else:
                 hist.append(g.v3())
-        via = ['kdbuf', 'fresh', 'api'][i % 3]
+        via = ['kdbuf', 'fresh', 'api', 'preopen'][i % 4]
         parses = parse_history(hist, via)
         oid = '%s%d_%s' % (stratum, i, via)
         obs.append({'id': oid, 'parses': parses})
